@@ -247,44 +247,53 @@ func c13Recover(c *core.Ctx) {
 	for _, k := range []string{"Height", "CertificateID", "NewLocalExitRoot", "Status", "FromBlock"} {
 		c.Decide(g(k) == want[k], rule, "statuschecker.newCertificateInfoFromAgglayerCertHeader#"+k, fn.Pos(), k+" ← "+g(k))
 	}
-	// ToBlock: per metadata version
+	// ToBlock: per metadata version. Operands that can only travel with an error (placeholders of a helper expanded in
+	// place) are ignored.
 	tb := lit.Fields["ToBlock"]
-	okTB := tb != nil
+	isOKRet := func(x ssa.Instruction) bool {
+		r, isR := x.(*ssa.Return)
+		return isR && len(r.Results) == 2 && isNilConst(r.Results[1])
+	}
+	ver := func(k string) []core.IfEdge {
+		return core.TermEdges(fn, sx, func(s string, _ *core.Term) bool { return s == "("+meta+".Version == const("+k+"))" }, true)
+	}
+	okTB, okV := tb != nil && tb.Val != nil, true
+	seen := map[string]bool{}
 	if okTB {
-		alts := map[string]bool{}
-		for _, a := range tb.Alts() {
-			alts[a.String()] = true
+		for _, lf := range phiLeaves(tb.Val) {
+			if lf.phi == nil {
+				okTB = false // not a merge of per-version values
+				continue
+			}
+			if !core.PhiEdgeReaches(lf.phi, lf.idx, isOKRet) {
+				continue
+			}
+			t := sx.Of(lf.val).String()
+			seen[t] = true
+			pred := lf.phi.Block().Preds[lf.idx]
+			si := 0
+			for j, sc := range pred.Succs {
+				if sc == lf.phi.Block() {
+					si = j
+				}
+			}
+			rc := core.RetCase{Pred: pred, Succ: si}
+			switch t {
+			case meta + ".ToBlock":
+				okV = okV && rc.ReachableOnlyVia(fn, ver("0"))
+			case "(" + meta + ".FromBlock + conv:uint64(" + meta + ".Offset))":
+				okV = okV && rc.ReachableOnlyVia(fn, append(ver("1"), ver("2")...))
+			default:
+				okTB = false
+			}
 		}
-		okTB = alts["("+meta+".FromBlock + conv:uint64("+meta+".Offset))"] && alts[meta+".ToBlock"] && len(alts) == 2
+		okTB = okTB && len(seen) == 2
 	}
 	c.Decide(okTB, rule, "statuschecker.newCertificateInfoFromAgglayerCertHeader#ToBlock", fn.Pos(), "ToBlock ← FromBlock+Offset (v1/v2) or the v0 ToBlock: "+g("ToBlock"))
-	// each alternative under its metadata version only
 	if okTB {
-		if phi, ok := tb.Val.(*ssa.Phi); ok {
-			ver := func(k string) []core.IfEdge {
-				return core.TermEdges(fn, sx, func(s string, _ *core.Term) bool { return s == "("+meta+".Version == const("+k+"))" }, true)
-			}
-			okV := true
-			for k, e := range phi.Edges {
-				pred := phi.Block().Preds[k]
-				si := 0
-				for j, sc := range pred.Succs {
-					if sc == phi.Block() {
-						si = j
-					}
-				}
-				rc := core.RetCase{Pred: pred, Succ: si}
-				switch sx.Of(e).String() {
-				case meta + ".ToBlock":
-					okV = okV && rc.ReachableOnlyVia(fn, ver("0"))
-				default:
-					okV = okV && rc.ReachableOnlyVia(fn, append(ver("1"), ver("2")...))
-				}
-			}
-			c.Decide(okV, rule, "statuschecker.newCertificateInfoFromAgglayerCertHeader#ToBlock-per-version", fn.Pos(), "the v0 ToBlock is used only for metadata version 0, FromBlock+Offset only for versions 1 and 2 (a one-block certificate has Offset 0)")
-		} else {
-			c.Undecide(rule, "statuschecker.newCertificateInfoFromAgglayerCertHeader#ToBlock-per-version", fn.Pos(), "ToBlock is not a merge of per-version values")
-		}
+		c.Decide(okV, rule, "statuschecker.newCertificateInfoFromAgglayerCertHeader#ToBlock-per-version", fn.Pos(), "the v0 ToBlock is used only for metadata version 0, FromBlock+Offset only for versions 1 and 2 (a one-block certificate has Offset 0)")
+	} else {
+		c.Undecide(rule, "statuschecker.newCertificateInfoFromAgglayerCertHeader#ToBlock-per-version", fn.Pos(), "ToBlock is not a merge of per-version values")
 	}
 	// the v0 form only for version 0
 	// previous LER copied when present
@@ -501,6 +510,61 @@ func c13Last(c *core.Ctx) {
 	})
 }
 
+// c13ReadFaults: a failed read of the certificate table is "no certificate" only when the statement really found no
+// row; and a status difference reported by the Agglayer always ends in the local record taking that status.
+func c13ReadFaults(c *core.Ctx) {
+	const rule = "C13-read"
+	sx := core.NewSymx()
+	if fn := c.MustFn(rule, "aggsender/db", "", "getSelectQueryError"); fn != nil {
+		noRows := core.TermEdges(fn, sx, func(s string, _ *core.Term) bool { return s == "errors.Is(err, database/sql.ErrNoRows)" }, true)
+		h0 := core.TermEdges(fn, sx, func(s string, _ *core.Term) bool { return s == "(height == const(0))" }, true)
+		ok := len(noRows) > 0
+		n := 0
+		for _, rc := range core.ReturnCases(fn) {
+			n++
+			switch v := sx.Of(rc.Values[0]).String(); v {
+			case "const(nil)":
+				ok = ok && rc.ReachableOnlyVia(fn, noRows) && len(h0) > 0 && rc.ReachableOnlyVia(fn, h0)
+			case "db.ErrNotFound":
+				ok = ok && rc.ReachableOnlyVia(fn, noRows)
+			case "err":
+			default:
+				ok = false
+			}
+		}
+		c.Decide(ok && n >= 2, rule, "aggsender/db.getSelectQueryError#no-rows-only", fn.Pos(), "nil (height 0) and ErrNotFound are answered only for sql.ErrNoRows; any other read error is handed on")
+	}
+	if fn := c.MustFn(rule, "aggsender/statuschecker", "certStatusChecker", "updateCertificateStatus"); fn != nil {
+		same := core.TermEdges(fn, sx, func(s string, _ *core.Term) bool { return s == "(localCert.Status == agglayerCert.Status)" }, true)
+		var upd *ssa.Call
+		core.Instrs(fn, func(i ssa.Instruction) {
+			if cl, ok := i.(*ssa.Call); ok && cl.Call.IsInvoke() && cl.Call.Method.Name() == "UpdateCertificateStatus" {
+				upd = cl
+			}
+		})
+		ok := upd != nil && len(same) > 0
+		if ok {
+			updOK := core.NilEdgesRes(fn, upd, true)
+			allowed := append(append([]core.IfEdge{}, same...), updOK...)
+			for _, rc := range core.ReturnCases(fn) {
+				if isNilConst(rc.Values[0]) && !rc.ReachableOnlyVia(fn, allowed) {
+					ok = false
+				}
+			}
+			// what is stored is the Agglayer's status, for this certificate
+			okArgs := sx.Of(upd.Call.Args[1]).String() == "localCert.CertificateID"
+			stored := false
+			core.Instrs(fn, func(i ssa.Instruction) {
+				if st, isSt := i.(*ssa.Store); isSt && sx.Of(st.Addr).String() == "localCert.Status" && sx.Of(st.Val).String() == "agglayerCert.Status" && core.Dominates(st, upd) {
+					stored = true
+				}
+			})
+			ok = ok && okArgs && stored
+		}
+		c.Decide(ok, rule, "statuschecker.(*certStatusChecker).updateCertificateStatus#always-applied", fn.Pos(), "success is reported only when the statuses were equal or the Agglayer's status was written to the record and stored (a reopened certificate is not ignored)")
+	}
+}
+
 func init() {
 	register(&Property{
 		ID:    "C13",
@@ -508,6 +572,7 @@ func init() {
 		Explanation: "Decides the structural necessary conditions of crash-safe certificate bookkeeping on every path: C13-pk — certificate_info PRIMARY KEY(height), history PRIMARY KEY(height, retry_count), identical column lists (schema computed from the embedded migrations); C13-replace — every storage function that opens a transaction pairs it, writes only through it and never drops a write error; SaveLastSentCertificate looks the existing record up on the tx by the new height, moves/deletes exactly that record before the insert, aborts on lookup errors; statements of move/delete parsed and bound; C13-first — the send loop starts only after CheckInitialStatus returned, which happens only after a successful reconciliation or cancellation; a contradiction reported by process() executes nothing; C13-recover — the record rebuilt from an Agglayer header takes Height/ID/LERs/Status from the header, FromBlock from the metadata and ToBlock = FromBlock+Offset (V1/V2) or the V0 ToBlock, and is saved through SaveLastSentCertificate; C13-decide — every deciding return of initialStatus.process is matched with its dominating branch facts against the case table (update only for equal ids at equal-or-not-next height; insert only when nothing is local or the Agglayer is exactly one ahead (constant +1); adopt a pending certificate only at height 0; nothing only when both sides are empty or the lone pending is in error at a wrong height) and the three contradictions always end in an error; action dispatch checked. The end-to-end 'submit, crash anywhere, restart, next certificate is right' is not decided.",
 		Rules: []Rule{
 			{ID: "C13-last", Floor: 6, Run: c13Last, Text: "SQL: 'the last sent certificate' is the row with the greatest height"},
+			{ID: "C13-read", Floor: 2, Run: c13ReadFaults, Text: "[DOM] read faults are not 'no certificate'; a status difference is always applied and stored"},
 			{ID: "C13-pk", Floor: 3, Run: c13PK, Text: "[SCHEMA] primary keys of certificate_info / history; same columns"},
 			{ID: "C13-replace", Floor: 20, Run: c13Replace, Text: "[TX] pairing, write-through, error discipline; replace-at-height inside one transaction"},
 			{ID: "C13-first", Floor: 4, Run: c13First, Text: "[DOM] reconcile before the first send; contradictions abort"},
